@@ -134,6 +134,9 @@ func (mAddr *ManagedAddress) VerifScript() []byte { return mAddr.scriptHash }
 //@   nopanic off
 //@   modifies *
 //@   only newManagedAddressFromExtKey
+// the stored next index is never below the caller's hint: every address in [0, hint) is listed after a restore, so the
+// next address issued must lie behind them ("an address never returned before")
+//@   at "err = updateChildNum(accountBucket, false, nextIndex)" assert[C12] nextIndex >= hdpath.ExternalChildNum
 //@   callback checkfunc observes scriptUsed
 //@   loop#3 skip
 //@   loop#6 skip
@@ -156,6 +159,18 @@ func (mAddr *ManagedAddress) VerifScript() []byte { return mAddr.scriptHash }
 //@   modifies bmap(b)
 //@   ensures result != nil ==> bsame(b)
 //@   at "return b.Put(key, pubKey)" assert[C12] len(key) == 8 && le32(key, 0) == branch && le32(key, 4) == index
+
+// ---- C18 (retry after a failed removal step): the cache of managed keystores is re-synchronised against the keystore
+// manager's own bucket -- the bucket whose sub-buckets are the keystores -- as seen by the given transaction
+//@ func (*KeystoreManager).updateManagedKeystore
+//@   props C18
+//@   nopanic off
+//@   modifies *
+//@   only FetchBucket
+//@   requires km != nil && dbTransaction != nil
+// FetchBucket's assumed contract returns a bucket: the nil guard is a defensive return
+//@   dead returns 1
+//@   at "if kmBucket == nil {..." assert[C18] kmBucket != nil && ghost("bkt", kmBucket) == ghost("bucketOf", dbTransaction, km.ksMgrMeta)
 
 // reader side: every key of the public-key bucket has the 8-byte form the writer above gives it (bucket invariant, stated
 // as a precondition: putEncryptedPubKey is the only writer); each record read is decoded with the writer's layout
